@@ -26,7 +26,7 @@ RULE = ("78 builtin models (multiplicity models at several multiplicities, P@S t
 ASSUMPTIONS = ["bumps is replaced by a minimal stub of bumps.parameter (Parameter.default boxes a value)",
                "2-D data for DirectModel/bumps carry no resolution columns (dqx_data = None) so that no smearing is applied"]
 REQUIRED_MONITORS = ["interfaces_agree", "selection_matches_reference_index", "unknown_name_refused"]
-REQUIRED_BUCKETS = {"quick": ["bumps:after-simulate-data", "bumps:attributes-rebound", "bumps:distribution-type-rebound", "select:limits-equal-to-pixel-radii", "iface:kernel", "iface:DirectModel", "iface:keyword", "iface:sasview", "iface:bumps",
+REQUIRED_BUCKETS = {"quick": ["bumps:after-simulate-data", "bumps:attributes-rebound", "bumps:distribution-type-rebound", "value-exactly-on-declared-limit", "bumps:resolution-replaced", "select:limits-equal-to-pixel-radii", "iface:kernel", "iface:DirectModel", "iface:keyword", "iface:sasview", "iface:bumps",
                               "dim:1d", "dim:2d", "multiplicity", "product", "array_distribution", "select:mask",
                               "select:qlimits", "select:nan", "refuse:misspelt", "refuse:foreign", "refuse:pd_suffix", "refuse:bad_attribute",
                               "dispersity-on-vector-element:1d", "refuse:repeated-on-one-object", "sasview:clone-edited",
@@ -85,6 +85,13 @@ def request(i, rng, k, dim):
                 continue
             spec = (["gaussian", "schulz", "lognormal", "uniform"][int(rng.integers(4))], int(rng.integers(2, 9)), w, 2.5)
         pd[p.name] = spec
+    if (k + len(i.id)) % 3 == 1:
+        # a value exactly on its declared limit (a shell or rim of thickness zero): inside the limits like any other
+        onlim = [p for p in i.parameters.call_parameters if p.type == "volume" and p.limits[0] == 0 and p.name in pars
+                 and p.name not in pd and any(t_ in p.name for t_ in ("thick", "rim", "shell", "face"))]
+        if onlim:
+            pars[onlim[int(rng.integers(len(onlim)))].name] = 0.0
+            pd["__onlimit__"] = None
     return pars, pd
 
 
@@ -134,6 +141,8 @@ def run_agree(case, rec):
     rng = core.rng_for(case["seed"], PROP, name, k)
     dim = "2d" if k % 2 == 1 else "1d"
     pars, pd = request(i, rng, case["seed"]*19 + k, dim)
+    if pd.pop("__onlimit__", 0) is None:
+        rec.bucket("value-exactly-on-declared-limit")
     cutoff = [0.0, 0.0, 1e-4][k % 3]
     size = sas.size_scale(i, pars)
     if dim == "1d":
@@ -271,6 +280,20 @@ def run_agree(case, rec):
                   None if ok2_ else {"model": name, "dim": dim, "interface": "bumps Experiment on a Model whose attributes were rebound after construction",
                                      "rebound": {n_: up2[n_] for n_ in tgt + ["scale"]}, "kernel": kref2, "other": th2})
         rec.bucket("bumps:attributes-rebound")
+    if dim == "1d" and k % 3 != 1:
+        # the experiment's resolution replaced before its first evaluation (the documented way to attach another
+        # resolution calculator, e.g. multiple scattering): theory is calculated on the new calculator's q values
+        from sasmodels import resolution as sasres
+        ex3 = bumps_model.Experiment(data_for(dim, q), bm, cutoff=cutoff)
+        q2 = np.sort(np.concatenate([q[0]*1.13, q[0][:2]*0.71]))
+        ex3.resolution = sasres.Perfect1D(q2)
+        th3 = np.array(ex3.theory(), float)
+        kref3 = np.asarray(direct_model.call_kernel(model.make_kernel([q2]), dict(up), cutoff=cutoff), float)
+        ok3 = len(th3) == len(q2) and core.close(th3, kref3, 1e-12, 1e-14*float(np.nanmax(np.abs(kref3))))
+        rec.check("interfaces_agree", ok3,
+                  None if ok3 else {"model": name, "interface": "bumps Experiment with its resolution replaced before the first evaluation",
+                                    "q_of_new_resolution": q2, "kernel_at_those_q": kref3, "other": th3})
+        rec.bucket("bumps:resolution-replaced")
     if k % 2 == 0:
         # the same experiment object used further (simulated data drawn from it, residuals asked for) still returns
         # the model intensities as its theory
